@@ -115,6 +115,13 @@ fn main() {
                 }
             }
         }
+        "runs" => {
+            if args.len() < 3 {
+                usage();
+            }
+            let prop = props::by_id(&args[1]).unwrap_or_else(|| usage());
+            println!("{}", prop.runs(tier_of(&args[2])));
+        }
         "merge" => {
             if args.len() < 4 {
                 usage();
